@@ -588,7 +588,7 @@ func genScenario(c *caseRun, rng *rand.Rand, steps int) {
 func Run(out string, seed int64, tier string) error {
 	rep := emit.NewReport("node", seed, tier)
 	rng := rand.New(rand.NewSource(seed))
-	ncases, steps := 14, 40
+	ncases, steps := 12, 40
 	schemes := []string{crypto.DefaultSchemeID, crypto.UnchainedSchemeID}
 	if tier == "thorough" {
 		ncases, steps = 150, 70
